@@ -81,7 +81,7 @@ class Skeleton:
             node = ps.closures.get(pred_term[1])
             cap = {}
             if len(pred_term) > 2:
-                cap = {i: v[2] for (i, v) in pred_term[2] if isinstance(v[2], (int, bool))}
+                cap = {i: v[2] for (i, v) in pred_term[2] if v[0] == "lit" and isinstance(v[2], (int, bool))}
             return bytecls.denote_closure(node, self.lib, cap) if node is not None else None
         if pred_term[0] == "fn":
             return bytecls.denote_fn(self.lib, pred_term[1])
